@@ -478,7 +478,17 @@ func (g *valGen) value(s *spec, tagged bool) *model.Node {
 	case kLeaf:
 		return g.leaf(s.leaf, tagged)
 	case kIface:
-		return g.generic(2)
+		for {
+			n := g.generic(2)
+			if tagged && n.Kind == model.KPrim {
+				// an element of a validated []interface{} / [N]interface{} field:
+				// nonzero/required are run on the value held, like for typed elements
+				if n.Prim == int64(0) || n.Prim == float64(0) || n.Prim == "" {
+					continue
+				}
+			}
+			return n
+		}
 	case kMap:
 		n := model.Dict()
 		for i, c := 0, 1+r.Intn(3); i < c; i++ {
